@@ -345,6 +345,8 @@ Col(name, arr, j) ==
          [] name = "colmean" -> LET s == [c \in 1..m |-> MeanSeq(dt, ColVals(rows, c - 1))] IN
                                 IF dt = "f2" /\ \E c \in 1..m : ~RepF2(s[c]) THEN UNSPEC ELSE <<"flat", MeanType(dt), s>>
          [] name = "colvalues" -> IF j \in 0..m - 1 THEN <<"flat", dt, ColVals(rows, j)>> ELSE UNSPEC
+         \* column totals of a 64-bit array whose values are given as 16-bit limbs: exact modulo 2^64 (NpVal!WideSum)
+         [] name = "wcolsum" -> IF dt \in {"i8", "u8"} THEN <<"flat", dt, [c \in 1..m |-> WideSum(ColVals(rows, c - 1))]>> ELSE UNSPEC
          [] OTHER -> UNSPEC
 
 (***************************************************************************)
